@@ -233,11 +233,28 @@ def _optlib_init(self, methods, space, script=None, **_):
     self._verif_next = 0
     self._verif_reports = []
     self._verif_overrun = 0
+    self._verif_snaps = []
+
+
+def _snapshot(self):
+    """The record as the sampler sees it when it is asked for the next setting (between two
+    assessed trials): lengths of the seven lists, best score, minimum of the comparable scores."""
+    lens = [len(self.method_choices), len(self.param_choices), len(self.scores), len(self.costs_flops),
+            len(self.costs_write), len(self.costs_size), len(self.times)]
+    us = [x for x in self.scores if x == x]
+    b = self.best
+    return {"n": len(self.scores), "lens_ok": len(set(lens)) == 1,
+            "best": fscore(b["score"]), "best_tid": b["params"].get("tid") if "params" in b else None,
+            "min": fscore(min(us)) if us else "inf"}
 
 
 def _optlib_get_setting(self):
     i = self._verif_next
     self._verif_next += 1
+    try:
+        self._verif_snaps.append(_snapshot(self))
+    except Exception as e:  # an unreadable record is a finding of its own
+        self._verif_snaps.append({"error": type(e).__name__})
     if i < len(self._verif_script):
         m, params = self._verif_script[i]
     else:  # more settings drawn than the harness scripted: budget overrun, recorded
@@ -567,6 +584,7 @@ def run_scripted(case):
             opt.max_time = {"never": None, "equil": "equil:%d" % s.get("amount", 0), "rate": "rate:1e300",
                             "zero": 0.0, "large": 1e9}[s["stop"]]
             n0, sub0 = len(opt.scores), opt._verif_next
+            snap0 = len(opt._verif_snaps)
             marks = {k: len(getattr(ex, k)) for k in ("cancel_calls", "discarded", "raised", "late")} if ex else {}
             if ex:
                 ex.new_search()
@@ -602,6 +620,7 @@ def run_scripted(case):
                 "lens": [len(opt.method_choices), len(opt.param_choices), len(opt.scores),
                          len(opt.costs_flops), len(opt.costs_write), len(opt.costs_size), len(opt.times)],
                 "get_trials": gt,
+                "snaps": list(opt._verif_snaps[snap0:]),
                 "best_score": fscore(opt.best_score),
                 "trials_since_best": opt.trials_since_best,
                 "reports": [(t, fscore(x)) for t, x in opt._verif_reports],
@@ -663,6 +682,17 @@ def oracle_scripted(case, obs):
         first_sub += o["submitted_new"]
         if len(set(o["lens"])) != 1:
             return ("lists-length", o["lens"])
+        # the invariant holds whenever the sampler looks at the record (between two assessed trials):
+        # lists aligned, best score = minimum of the comparable scores recorded so far
+        for sn in o["snaps"]:
+            if "error" in sn:
+                return ("record-unreadable-mid-search", sn)
+            if not sn["lens_ok"]:
+                return ("lists-length-mid-search", sn)
+            if unf(sn["min"]) < float("inf") and unf(sn["best"]) != unf(sn["min"]):
+                return ("best-not-min-mid-search", sn)
+            if sn["best"] == "nan":
+                return ("best-not-min-mid-search", sn)
         n = len(o["scores"])
         # budget
         if o["n_new"] > s["max_repeats"] or o["submitted_new"] > s["max_repeats"] or o["overrun"]:
@@ -945,6 +975,28 @@ def model_scripted(drv, case, obs, softstats):
     diff = compare_states(case, obs, resp, softstats, True)
     if diff:
         return "c08.xsearch: " + diff
+    # intermediate states: whenever the sampler looked at the real record (n trials recorded and
+    # assessed), its best score must be that of the model run over the first n entries of the log
+    order = obs[-1]["params"]
+    if all(isinstance(xtrials[k], dict) for k in order if k < len(xtrials)) and all(k < len(xtrials) for k in order):
+        resp = drv.call("c08.xprefixes", mts=case["mts"], settings=settings, trials=xtrials, order=order)
+        if "error" in resp:
+            return "driver error (c08.xprefixes): " + resp["error"]
+        pre = resp["prefixes"]
+        # both sides: dense ranks over the scores recorded in the whole history
+        rank = ranker(list(obs[-1]["scores"]))
+        mrank = ranker([xtrials[k]["score"] for k in order])
+        nsn = 0
+        for si, o in enumerate(obs):
+            for sn in o["snaps"]:
+                if "error" in sn or sn["n"] >= len(pre):
+                    continue
+                below = unf(sn["min"]) < float("inf")
+                if below and rank(sn["best"]) != mrank(pre[sn["n"]]["best"]):
+                    return (f"c08.xprefixes: search {si}: after {sn['n']} recorded trials best score: model "
+                            f"{pre[sn['n']]['best']} vs implementation {sn['best']}")
+                nsn += 1
+        softstats["mid_search_states_compared"] = softstats.get("mid_search_states_compared", 0) + nsn
     if not has_new_features(case, obs):
         old = [{k: v for k, v in s.items() if k != "cleanup"} for s in searches]
         resp = drv.call("c08.search", mts=case["mts"], settings=settings, trials=trials, searches=old)
